@@ -126,7 +126,8 @@ def explore(desc, make_case, owns, signature, classify=None, sample_pred=None, m
                 flags = {}
             else:
                 rule, detail, n, flags = rej.rule, rej.detail, rej.n, rej.flags
-            if owns(rule, flags):
+            # a valid generated machine that cannot even be constructed concerns every property checked on it
+            if owns(rule, flags) or rule == "construct.raised":
                 counters["own_rejections"] += 1
                 mech = classify(case, rule, detail, log, fault, ck) if classify else rule
                 violations.append({
